@@ -142,20 +142,20 @@ macro "close_ph " H:ident : tactic =>
 
 theorem H1_ioA (p : Params) (hp : 0 < p.sendLimit) (v : View) (b : Conn) (i o h : Bool) (nr nw : Nat)
     (hs : H1 v.c b v.k v.pk) :
-    HalfInv (io p v i o h nr nw).c b (io p v i o h nr nw).k (io p v i o h nr nw).pk := by
+    HalfInv (io0 p v i o h nr nw).c b (io0 p v i o h nr nw).k (io0 p v i o h nr nw).pk := by
   have H := hs
   simp only [H1, HalfC, OpenC, SockOk, pending] at H
   obtain ⟨hc1, hc2, H⟩ := H
   obtain ⟨ie, oe, h1, h2, -, -, e⟩ := io_rtw p v i o h nr nw (by simp [hupCond, H]) (by simp [H])
   rw [e]
-  have hrd : ∀ n, doRead p v n = (none, v) := by
+  have hrd : ∀ n, doRead0 p v n = (none, v) := by
     intro n
     rcases doRead_cases p v n (by simp [H]) with ⟨-, e⟩ | ⟨-, hq, -⟩ | ⟨-, -, hr, -⟩ | ⟨-, -, -, hf, -⟩
     · exact e
     · simp [H] at hq
     · simp [H] at hr
     · simp [H] at hf
-  have hw : readThenWrite p v false oe nr nw = readThenWrite p v ie oe nr nw := by
+  have hw : readThenWrite0 p v false oe nr nw = readThenWrite0 p v ie oe nr nw := by
     cases ie
     · rfl
     · rw [rtw_t, hrd]
@@ -184,8 +184,8 @@ theorem H1_ioA (p : Params) (hp : 0 < p.sendLimit) (v : View) (b : Conn) (i o h 
     deliver data -/
 theorem peer_reads (p : Params) (v : View) (i o h : Bool) (nr nw : Nat)
     (ho : OpenC v.c false) (hk : SockOk v.k false false) (hw : v.c.writing = false) :
-    io p v i o h nr nw = v ∨
-    (v.k.inq ≠ [] ∧ ∃ m, io p v i o h nr nw =
+    io0 p v i o h nr nw = v ∨
+    (v.k.inq ≠ [] ∧ ∃ m, io0 p v i o h nr nw =
       { v with c := { v.c with received := v.c.received ++ v.k.inq.take m }, k := { v.k with inq := v.k.inq.drop m } }) := by
   simp only [OpenC, SockOk] at ho hk
   by_cases hr : v.c.reading = true
@@ -205,7 +205,7 @@ theorem peer_reads (p : Params) (v : View) (i o h : Bool) (nr nw : Nat)
 
 theorem H1_ioB (p : Params) (v : View) (a : Conn) (i o h : Bool) (nr nw : Nat)
     (hs : H1 a v.c v.pk v.k) :
-    HalfInv a (io p v i o h nr nw).c (io p v i o h nr nw).pk (io p v i o h nr nw).k := by
+    HalfInv a (io0 p v i o h nr nw).c (io0 p v i o h nr nw).pk (io0 p v i o h nr nw).k := by
   have H := hs
   simp only [H1, HalfC, OpenC, SockOk, pending] at H
   obtain ⟨hc1, hc2, H⟩ := H
@@ -218,7 +218,7 @@ theorem H1_ioB (p : Params) (v : View) (a : Conn) (i o h : Bool) (nr nw : Nat)
 
 theorem H2_ioA (p : Params) (v : View) (b : Conn) (i o h : Bool) (nr nw : Nat)
     (hs : H2 v.c b v.k v.pk) :
-    HalfInv (io p v i o h nr nw).c b (io p v i o h nr nw).k (io p v i o h nr nw).pk := by
+    HalfInv (io0 p v i o h nr nw).c b (io0 p v i o h nr nw).k (io0 p v i o h nr nw).pk := by
   have H := hs
   simp only [H2, OpenC, SockOk, pending] at H
   obtain ⟨hc1, hc2, H⟩ := H
@@ -237,7 +237,7 @@ theorem H2_ioA (p : Params) (v : View) (b : Conn) (i o h : Bool) (nr nw : Nat)
 
 theorem H2_ioB (p : Params) (v : View) (a : Conn) (i o h : Bool) (nr nw : Nat)
     (hs : H2 a v.c v.pk v.k) :
-    HalfInv a (io p v i o h nr nw).c (io p v i o h nr nw).pk (io p v i o h nr nw).k := by
+    HalfInv a (io0 p v i o h nr nw).c (io0 p v i o h nr nw).pk (io0 p v i o h nr nw).k := by
   have H := hs
   simp only [H2, OpenC, SockOk, pending] at H
   obtain ⟨hc1, hc2, H⟩ := H
@@ -273,7 +273,7 @@ theorem H2_ioB (p : Params) (v : View) (a : Conn) (i o h : Bool) (nr nw : Nat)
 
 theorem half_ioA (p : Params) (hp : 0 < p.sendLimit) (v : View) (b : Conn) (i o h : Bool) (nr nw : Nat)
     (hs : HalfInv v.c b v.k v.pk) :
-    HalfInv (io p v i o h nr nw).c b (io p v i o h nr nw).k (io p v i o h nr nw).pk := by
+    HalfInv (io0 p v i o h nr nw).c b (io0 p v i o h nr nw).k (io0 p v i o h nr nw).pk := by
   rcases hs with hs | hs | hs
   · exact H1_ioA p hp v b i o h nr nw hs
   · exact H2_ioA p v b i o h nr nw hs
@@ -281,7 +281,7 @@ theorem half_ioA (p : Params) (hp : 0 < p.sendLimit) (v : View) (b : Conn) (i o 
 
 theorem half_ioB (p : Params) (hp : 0 < p.sendLimit) (v : View) (a : Conn) (i o h : Bool) (nr nw : Nat)
     (hs : HalfInv a v.c v.pk v.k) :
-    HalfInv a (io p v i o h nr nw).c (io p v i o h nr nw).pk (io p v i o h nr nw).k := by
+    HalfInv a (io0 p v i o h nr nw).c (io0 p v i o h nr nw).pk (io0 p v i o h nr nw).k := by
   rcases hs with hs | hs | hs
   · exact H1_ioB p v a i o h nr nw hs
   · exact H2_ioB p v a i o h nr nw hs
@@ -297,7 +297,7 @@ theorem half_abortCall (a b : Conn) (ka kb : Sock) (hs : HalfInv a b ka kb) :
 /-! ### abort -/
 
 theorem abort_ioA (p : Params) (v : View) (b : Conn) (i o h : Bool) (nr nw : Nat)
-    (hs : AbortInv v.c b v.k v.pk) : io p v i o h nr nw = v := by
+    (hs : AbortInv v.c b v.k v.pk) : io0 p v i o h nr nw = v := by
   rcases hs with hs | hs | hs
   · simp only [X1, AbortingC] at hs; exact io_idle p v i o h nr nw (by simp [hs]) (by simp [hs])
   · simp only [X2, DeadC] at hs; exact io_idle p v i o h nr nw (by simp [hs]) (by simp [hs])
@@ -305,7 +305,7 @@ theorem abort_ioA (p : Params) (v : View) (b : Conn) (i o h : Bool) (nr nw : Nat
 
 theorem abort_ioB (p : Params) (v : View) (a : Conn) (i o h : Bool) (nr nw : Nat)
     (hs : AbortInv a v.c v.pk v.k) :
-    AbortInv a (io p v i o h nr nw).c (io p v i o h nr nw).pk (io p v i o h nr nw).k := by
+    AbortInv a (io0 p v i o h nr nw).c (io0 p v i o h nr nw).pk (io0 p v i o h nr nw).k := by
   rcases hs with hs | hs | hs
   · have H := hs
     simp only [X1, AbortingC, OpenC, SockOk] at H
@@ -355,19 +355,19 @@ theorem abort_abortCallB (a b : Conn) (ka kb : Sock) (hs : AbortInv a b ka kb) :
 
 theorem P0_ioA (p : Params) (hp : 0 < p.sendLimit) (v : View) (b : Conn) (i o h : Bool) (nr nw : Nat)
     (hs : P0 v.c b v.k v.pk) :
-    P0 (io p v i o h nr nw).c b (io p v i o h nr nw).k (io p v i o h nr nw).pk := by
+    P0 (io0 p v i o h nr nw).c b (io0 p v i o h nr nw).k (io0 p v i o h nr nw).pk := by
   have H := hs.2
   simp only [OpenC, SockOk, pending] at H
   obtain ⟨ie, oe, h1, h2, -, -, e⟩ := io_rtw p v i o h nr nw (by simp [hupCond, H]) (by simp [H])
   rw [e]
-  have hrd : ∀ n, doRead p v n = (none, v) := by
+  have hrd : ∀ n, doRead0 p v n = (none, v) := by
     intro n
     rcases doRead_cases p v n (by simp [H]) with ⟨-, e⟩ | ⟨-, hq, -⟩ | ⟨-, -, hr, -⟩ | ⟨-, -, -, hf, -⟩
     · exact e
     · simp [H] at hq
     · simp [H] at hr
     · simp [H] at hf
-  have hw : readThenWrite p v false oe nr nw = readThenWrite p v ie oe nr nw := by
+  have hw : readThenWrite0 p v false oe nr nw = readThenWrite0 p v ie oe nr nw := by
     cases ie
     · rfl
     · rw [rtw_t, hrd]
@@ -389,7 +389,7 @@ theorem P0_ioA (p : Params) (hp : 0 < p.sendLimit) (v : View) (b : Conn) (i o h 
 
 theorem P0_ioB (p : Params) (v : View) (a : Conn) (i o h : Bool) (nr nw : Nat)
     (hs : P0 a v.c v.pk v.k) :
-    P0 a (io p v i o h nr nw).c (io p v i o h nr nw).pk (io p v i o h nr nw).k := by
+    P0 a (io0 p v i o h nr nw).c (io0 p v i o h nr nw).pk (io0 p v i o h nr nw).k := by
   have H := hs.2
   simp only [OpenC, SockOk, pending] at H
   rcases peer_reads p v i o h nr nw hs.2.2.1 hs.2.2.2.2.1 (by simp [H]) with e | ⟨-, m, e⟩
